@@ -1563,7 +1563,15 @@ func runCrash(c scase, sec string, sect *vh.Section, rng *vh.Rng) {
 	if !v.start(kind) {
 		return
 	}
-	v.oracle(rng, "a crash ("+cs.Kind+")", ref)
+	if len(cs.Then) > 0 && cs.Then[0] == "write-first" {
+		// the first thing that touches each partition on the restarted server is a WRITE (any read would register the chunks
+		// with their real hulls first): the time index has no entry for the source, creates it from the notified batch and
+		// must hand the chunk — which already holds records — to the background rebuilder
+		v.writeFirst(rng, cs.Kind)
+		ref = nil // the answers of the server before the crash no longer apply
+	} else {
+		v.oracle(rng, "a crash ("+cs.Kind+")", ref)
+	}
 	// repeated crash / restart sequences on the image
 	cur := v
 	for i, th := range cs.Then {
@@ -1571,6 +1579,8 @@ func runCrash(c scase, sec string, sect *vh.Section, rng *vh.Rng) {
 			break
 		}
 		switch th {
+		case "write-first":
+			// done above
 		case "restart":
 			cur.srv.Stop()
 			cur.srv = nil
@@ -1597,6 +1607,60 @@ func runCrash(c scase, sec string, sect *vh.Section, rng *vh.Rng) {
 		}
 		res.Dist(sect, "then:"+th)
 	}
+}
+
+func (s *sim) writeFirst(rng *vh.Rng, kind string) {
+	type pre struct {
+		p      *part
+		n      int
+		lastTs int64
+	}
+	var pres []pre
+	for _, t := range s.sortedTags() {
+		p := s.parts[t]
+		if p.dest || len(p.events) == 0 {
+			continue
+		}
+		idx := -1
+		for _, tok := range strings.Split(t, ",") {
+			if strings.HasPrefix(tok, "p=") {
+				idx, _ = strconv.Atoi(tok[2:])
+			}
+		}
+		if idx < 0 {
+			continue
+		}
+		pres = append(pres, pre{p, len(p.events), p.events[len(p.events)-1].Ts})
+		s.doWrite(hop{Kind: "write", Part: idx, N: rng.PickI([]int{1, 3, 12})}, rng, true)
+		res.Dist(s.sect, "write-first-after-crash:"+kind)
+	}
+	if len(s.pipes) > 0 {
+		s.waitPipes()
+		s.syncPipes()
+	}
+	// the rebuild runs in the background: poll generously (5 s) until the events written before the crash are all visible
+	// to a RANGE query that ends before the new batch; whatever the outcome, the oracle below reports
+	deadline := time.Now().Add(5 * time.Second)
+	for _, x := range pres {
+		first := x.p.events[0].Ts
+		var want int
+		for _, e := range x.p.events {
+			if e.Ts >= first-2 && e.Ts <= x.lastTs {
+				want++
+			}
+		}
+		for {
+			got, err := s.query(fmt.Sprintf("select from %s range [\"%d\":\"%d\"]", fromOf(x.p.tags), first-2, x.lastTs))
+			if (err == nil && len(got) == want) || time.Now().After(deadline) {
+				if err != nil || len(got) != want {
+					res.Dist(s.sect, "write-first:not-visible-after-5s")
+				}
+				break
+			}
+			time.Sleep(10 * time.Millisecond)
+		}
+	}
+	s.oracle(rng, "a crash ("+kind+") and a first write", nil)
 }
 
 // ---------------------------------------------------------------------------------------------
@@ -1712,8 +1776,14 @@ func genCrash(rng *vh.Rng, i int) scase {
 			c.Ops = append(c.Ops, hop{Kind: "write", Part: 0, N: 4}, hop{Kind: "restart", Quiesce: true}, hop{Kind: "write", Part: 0, N: 3})
 		}
 	}
+	if (cs.Kind == "snap-missing" || cs.Kind == "snap-torn") && rng.Bool() {
+		cs.Then = append(cs.Then, "write-first")
+	}
 	for n := rng.Intn(3); n > 0; n-- {
 		cs.Then = append(cs.Then, rng.PickS([]string{"crash", "restart"}))
+	}
+	if len(cs.Then) == 1 && cs.Then[0] == "write-first" {
+		cs.Then = append(cs.Then, "restart") // the wrong hull would be saved by the next clean stop: ask again after it
 	}
 	c.Crash = cs
 	return c
@@ -1724,6 +1794,11 @@ func exhaustiveCuts() []scase {
 	var cs []scase
 	base := []hop{{Kind: "write", Part: 0, N: 5}, {Kind: "mkpipe", Name: "t", Sel: "g=a"}, {Kind: "write", Part: 0, N: 3}, {Kind: "write", Part: 1, N: 4},
 		{Kind: "restart", Quiesce: true}, {Kind: "write", Part: 1, N: 2}}
+	// first operation after the crash start is a write, for a missing and for a torn snapshot
+	cs = append(cs,
+		scase{ChunkSize: 4000, Ops: base, Crash: &crashSpec{Kind: "snap-missing", Then: []string{"write-first", "restart"}}},
+		scase{ChunkSize: 4000, Ops: base, Crash: &crashSpec{Kind: "snap-torn", Len: "h", Then: []string{"write-first", "restart"}}},
+		scase{ChunkSize: 700, Ops: base, Crash: &crashSpec{Kind: "snap-torn", Len: "m", Then: []string{"write-first", "crash"}}})
 	// the step lists come from the model at run time; a prefix class matters only where step k is a write
 	for k := 0; k <= 5; k++ {
 		for _, l := range lenClasses {
